@@ -265,7 +265,7 @@ class Script:
         return self
 
     def poke(self, idx, value):
-        self.b += b"P" + struct.pack("<Iq", idx, value)
+        self.b += b"P" + struct.pack("<IQ", idx, value & 0xFFFFFFFFFFFFFFFF)
         return self
 
     def poke_str(self, idx, data):
